@@ -217,8 +217,11 @@ def wl_fileproxy(ctx, rng, case_no):
     from rich.file_proxy import FileProxy
     stream, features = gen_stream(rng)
     n = len(stream)
-    console = Console(file=io.StringIO(), width=4000, color_system="truecolor", force_terminal=True,
-                      legacy_windows=False, _environ={})
+    # one case in seven: a console NARROWER than the lines (what is written is folded onto further rows, nothing is cut
+    # off - "complete" is then judged on the sequence of non-blank characters)
+    narrow = rng.random() < 0.15
+    console = Console(file=io.StringIO(), width=rng.choice([12, 20, 40]) if narrow else 4000, color_system="truecolor",
+                      force_terminal=True, legacy_windows=False, _environ={})
     proxy = FileProxy(console, io.StringIO())
     # cut points
     k = rng.choice([0, 1, 2, 4, 8, 16])
@@ -287,7 +290,12 @@ def wl_fileproxy(ctx, rng, case_no):
         tag += ":sgr-reset-inside-a-hyperlink"
     if "flush_inside_escape" in features:
         tag = ":flush-inside-an-escape-sequence"
-    if got.unexpected:
+    if narrow:
+        ctx.count("mon.proxy_narrow_console")
+        if "".join(got.text.split()) != "".join(want.text.split()):
+            ctx.violation("redirected-characters-lost-or-changed:console-narrower-than-the-lines" + tag,
+                          dict(wit, got=got.text, want=want.text, console_width=console.width))
+    elif got.unexpected:
         ctx.violation("unexpected-sequence-in-output" + tag, dict(wit, unexpected=got.unexpected[:3]))
     elif got.text != want.text:
         gl, wl_ = got.text.split("\n"), want.text.split("\n")
